@@ -1191,18 +1191,46 @@ def fam_cli(rng, n, prefix):
         d["vcodec_given"] = rng.chance(5, 6)
         d["valias"] = rng.choice(VALIASES[codec])
         d["aalias"] = rng.choice(AALIASES[ac]) if d["acodec"] else None
-        d["w"] = rng.choice([640, 640, 1920, 320, 4096, 319, 4097, 0, None])
-        d["h"] = rng.choice([480, 480, 1080, 240, 2160, 239, 2161, None])
-        d["fps"] = rng.choice(["30", "30", "29.97", "120", "0", "121", "-1", None])
-        d["rate"] = rng.choice([48000, 48000, 44100, 192000, 0, 192001, None])
-        d["ch"] = rng.choice([2, 2, 1, 8, 0, 9, None])
-        d["frag"] = rng.chance(1, 15)
-        d["dry"] = rng.chance(1, 10)
+        # start from a valid combination ...
+        d["w"], d["h"] = rng.choice([(640, 480), (1920, 1080), (320, 240), (4096, 2160)])
+        d["fps"] = rng.choice(["30", "29.97", "120", "0.5"])
+        d["rate"] = rng.choice([48000, 44100, 192000, 8000])
+        d["ch"] = rng.choice([2, 1, 8, 6])
+        d["frag"] = False
+        d["dry"] = rng.chance(1, 12)
         d["title"] = rng.choice([None, None, "Hello", "Grüße 世界"])
         d["lang"] = rng.choice([None, None, "eng", "deu"])
         d["json"] = rng.chance(1, 2)
         d["verbose"] = rng.chance(1, 4)
-        d["badout"] = rng.chance(1, 15)
+        d["badout"] = False
+        # ... and in half of the cases break exactly one thing
+        if rng.chance(1, 2):
+            k = rng.below(9)
+            if k == 0:
+                d["w"] = rng.choice([319, 4097, 0, None])
+            elif k == 1:
+                d["h"] = rng.choice([239, 2161, 0, None])
+            elif k == 2:
+                d["fps"] = rng.choice(["0", "121", "-1", None])
+            elif k == 3:
+                d["rate"] = rng.choice([0, 192001, None])
+            elif k == 4:
+                d["ch"] = rng.choice([0, 9, None])
+            elif k == 5:
+                d["frag"] = True
+            elif k == 6:
+                d["badout"] = True
+            elif k == 7 and d["video"] is not None:
+                d["video"] = ("missing", None)
+            else:
+                d["acodec"], d["aalias"] = "none", "none"
+        else:
+            # keep the inputs valid too
+            if d["video"] is not None and d["video"][0] not in ("valid", "valid-ws", "valid-upper"):
+                d["video"] = ("valid", video_key(rng, codec).hex().encode())
+            if d["audio"] is not None and d["audio"][0] not in ("valid", "valid-ws", "valid-upper"):
+                ac2 = d["acodec"] or "aac-lc"
+                d["audio"] = ("valid", (opus_packet(rng) if ac2 == "opus" else adts(rng)).hex().encode())
         c = Case(d["id"], "cli")
         c.meta = d
         c.lines = [json.dumps({k: (v if not isinstance(v, tuple) else [v[0], (v[1].hex() if v[1] is not None else None)]) for k, v in d.items()})]
@@ -1289,6 +1317,7 @@ def extra_C20(eng, cases):
         except subprocess.TimeoutExpired:
             return c, "timeout", "", outp
     eng.c20 = Counter()
+    eng.notes.append('C20: CLI outcome counts are appended below')
     with ThreadPoolExecutor(max_workers=16) as ex:
         for c, rc, out, outp in ex.map(runit, plans):
             eng.ev["evaluations"] += 1
@@ -1327,6 +1356,7 @@ def extra_C20(eng, cases):
                 else:
                     if ("Video frames: %d" % nv) not in out or ("Audio frames: %d" % na) not in out:
                         eng.fail(c, "reported frame counts do not match the accepted frames")
+    eng.notes.append('C20 mux outcomes: %r' % dict(eng.c20))
     # validate and info
     vlines, vplans = [], []
     rng = eng.rng.fork("c20v")
@@ -1446,4 +1476,200 @@ def extra_C20(eng, cases):
 
 import struct
 PROPS["C20"] = dict(fams=[("fam_cli", 200, 3000)], checks=[], extra=extra_C20, obs=obs_none, components=["K11"],
-                    nontrivial=lambda c, b: True, no_shrink=True, no_model=True)
+                    nontrivial=lambda c, b: True, no_shrink=True, no_model=True,
+                    rule="option products for the mux command (codec names/aliases, dimensions, fps, audio codec/rate/channels, title, language, json/verbose, dry-run, fragmented) x input file contents (valid hex incl. whitespace/upper case, odd length, non-hex, empty, binary, missing); validate on random file contents; info on well-formed, truncated, garbage and adversarial size fields; about half of the mux cases are fully valid")
+
+
+# ---------------------------------------------------------------- C07: AV1 headers from the syntax AST
+def rand_av1_ast(rng, allow_mono=True):
+    """a random VALID sequence-header AST as the flat token list of `driver av1enc`,
+    plus the fields a configuration record must carry and the branch tags taken"""
+    t = []
+    tags = []
+    profile = rng.choice([0, 0, 1, 2, 2])
+    reduced = rng.chance(1, 5)
+    still = True if reduced else rng.chance(1, 6)
+    rlevel = rng.below(32)
+    t += [profile, int(still), int(reduced), rlevel]
+    level0, tier0 = rlevel, 0
+    if reduced:
+        tags.append("reduced")
+        t += [0, 0, 1, 0, 0, 0, 0, 0]      # timing absent, iddp 0, 1 op (ignored by the encoder)
+    else:
+        dmi = None
+        if rng.chance(1, 2):
+            tags.append("timing")
+            t += [1, rng.below(2**32), rng.below(2**32)]
+            if rng.chance(1, 2):
+                tags.append("uvlc")
+                t += [1, rng.choice([0, 1, 2, 5, 255, 2**16, 2**32 - 2])]
+            else:
+                t += [0]
+            if rng.chance(1, 2):
+                tags.append("decoder_model")
+                dmi = rng.below(32)
+                t += [1, dmi, rng.below(2**32), rng.below(32), rng.below(32)]
+            else:
+                t += [0]
+        else:
+            t += [0]
+        iddp = rng.chance(1, 2)
+        t += [int(iddp)]
+        nops = rng.choice([1, 1, 2, 3, 32])
+        t += [nops]
+        for i in range(nops):
+            lvl = rng.below(32)
+            tier = 1 if (lvl > 7 and rng.chance(1, 2)) else 0
+            if i == 0:
+                level0, tier0 = lvl, tier
+            t += [rng.below(4096), lvl, tier]
+            if dmi is not None and rng.chance(1, 2):
+                tags.append("op_params")
+                n = dmi + 1
+                t += [1, rng.below(2**n), rng.below(2**n), rng.below(2)]
+            else:
+                t += [0]
+            if iddp and rng.chance(1, 2):
+                tags.append("op_idd")
+                t += [1, rng.below(16)]
+            else:
+                t += [0]
+    fwb, fhb = rng.below(16), rng.below(16)
+    t += [fwb, fhb, rng.below(2**(fwb + 1)), rng.below(2**(fhb + 1))]
+    if not reduced and rng.chance(1, 2):
+        tags.append("frame_id")
+        t += [1, rng.below(16), rng.below(8)]
+    else:
+        t += [0]
+    t += [rng.below(2) for _ in range(3)]
+    t += [rng.below(2) for _ in range(4)]
+    if not reduced and rng.chance(1, 2):
+        tags.append("order_hint")
+        t += [1, rng.below(2), rng.below(2), rng.below(8)]
+    else:
+        t += [0]
+    sct = rng.choice([2, 0, 1])
+    t += [sct, rng.choice([2, 0, 1])]
+    tags.append("sct%d" % sct)
+    t += [rng.below(2) for _ in range(3)]
+    # color config
+    hbd = rng.below(2)
+    tb = 1 if (profile == 2 and hbd and rng.chance(1, 2)) else 0
+    mono = 1 if (allow_mono and profile != 1 and rng.chance(1, 6)) else 0
+    depth = 12 if (profile == 2 and tb) else (10 if hbd else 8)
+    desc = None
+    if rng.chance(1, 2):
+        desc = rng.choice([(1, 13, 0), (1, 1, 1), (9, 16, 9), (rng.below(256), rng.below(256), rng.below(256))])
+    srgb = desc == (1, 13, 0)
+    if srgb and not mono and profile == 0:
+        desc = (1, 13, 1)       # sRGB needs 4:4:4; keep profile-0 headers conformant
+        srgb = False
+    if mono:
+        tags.append("mono")
+        rng_, sx, sy, csp, suv = rng.below(2), 1, 1, 0, 0
+    elif srgb:
+        tags.append("srgb")
+        rng_, sx, sy, csp, suv = 1, 0, 0, 0, rng.below(2)
+    else:
+        rng_ = rng.below(2)
+        if profile == 0:
+            sx, sy = 1, 1
+        elif profile == 1:
+            sx, sy = 0, 0
+        elif depth == 12:
+            tags.append("p2_12bit")
+            sx = rng.below(2)
+            sy = rng.below(2) if sx else 0
+        else:
+            sx, sy = 1, 0
+        csp = rng.below(4) if (sx and sy) else 0
+        suv = rng.below(2)
+    t += [hbd, tb, mono]
+    t += ([1] + list(desc)) if desc else [0]
+    t += [rng_, sx, sy, csp, suv]
+    t += [rng.below(2)]
+    exp = dict(profile=profile, level=level0, tier=tier0, hbd=hbd, tb=tb, mono=mono, sx=sx, sy=sy, csp=csp)
+    return t, exp, tags
+
+
+def fam_av1_syntax(rng, n, prefix):
+    asts = [rand_av1_ast(rng) for _ in range(n)]
+    lines = ["av1 a%d %s" % (i, " ".join("%x" % x for x in t)) for i, (t, _, _) in enumerate(asts)]
+    p = subprocess.run([DRIVER, "av1enc"], input=("\n".join(lines) + "\n").encode(), stdout=subprocess.PIPE,
+                       stderr=subprocess.PIPE, timeout=600)
+    enc = {}
+    for l in p.stdout.decode().split("\n"):
+        w = l.split(" ")
+        if w[0] == "av1":
+            enc[w[1]] = w[2:]
+    out = []
+    for i, (t, exp, tags) in enumerate(asts):
+        e = enc.get("a%d" % i)
+        if not e or e[0] != "1":
+            continue           # the generator must only emit valid ASTs; invalid ones are dropped and counted
+        seq = unhx(e[1])
+        key = (obu(2, b"") if rng.chance(1, 2) else b"") + seq + av1_frame_obu(rng, True)
+        fast = rng.below(2)
+        c = Case("%s%d" % (prefix, i), "mux")
+        c.b("video", "av1", "280", "1e0").b("fast", fast)
+        c.o("wv", fb(0.0), hx(key), 1)
+        c.o("wv", fb(0.04), hx(av1_delta(rng)), 0)
+        c.o("fin", 0)
+        c.meta = dict(av1=exp, tags=tags, seq=seq.hex())
+        out.append(c)
+        # the same header through the public extractor and the fragmented builder
+        f = fn_case("%s%d_fn" % (prefix, i), "extract_av1_config", hx(key))
+        f.meta = dict(av1=exp, tags=tags, seq=seq.hex())
+        out.append(f)
+    return out
+
+
+F.fam_av1_syntax = fam_av1_syntax
+
+
+def extra_C07(eng, cases):
+    """AV1: the av1C record / the extractor's fields against the syntax AST the header was encoded from"""
+    eng.av1_tags = Counter()
+    for c in cases:
+        exp = c.meta.get("av1") if isinstance(c.meta, dict) else None
+        if not exp:
+            continue
+        for tg in c.meta.get("tags", []):
+            eng.av1_tags[tg] += 1
+        b = eng.iblocks.get(c.id, [])
+        if c.kind == "fn":
+            w = (b[0] if b else "").split(" ")
+            if len(w) < 11 or w[1] == "none":
+                eng.fail(c, "a conformant AV1 sequence header (encoded from the syntax AST) is rejected by extract_av1_config",
+                         dict(key="C07", av1=True, mono=bool(exp["mono"])))
+                continue
+            got = dict(profile=int(w[2], 16), level=int(w[3], 16), tier=int(w[4], 16), hbd=int(w[5]), tb=int(w[6]),
+                       mono=int(w[7]), sx=int(w[8]), sy=int(w[9]), csp=int(w[10], 16))
+            if w[1] != c.meta["seq"] or got != exp:
+                eng.fail(c, "extract_av1_config fields differ from the header's syntax elements: got %r expected %r" % (got, exp),
+                         dict(key="C07", av1=True, mono=bool(exp["mono"])))
+            continue
+        if first_ok_fin(c, b) is None:
+            eng.fail(c, "a conformant AV1 keyframe (header encoded from the syntax AST) is not accepted",
+                     dict(key="C07", av1=True, mono=bool(exp["mono"])))
+            continue
+        r = mp4.root(sink_of(b))
+        rec = r.find(b"moov", b"trak", b"mdia", b"minf", b"stbl", b"stsd", b"av01", b"av1C") if r else []
+        if not rec:
+            eng.fail(c, "no av1C record in the file", dict(key="C07", av1=True, mono=bool(exp["mono"])))
+            continue
+        p = rec[0].payload
+        b1 = (exp["profile"] << 5) | exp["level"]
+        b2 = (exp["tier"] << 7) | (exp["hbd"] << 6) | (exp["tb"] << 5) | (exp["mono"] << 4) | (exp["sx"] << 3) | (exp["sy"] << 2) | exp["csp"]
+        if len(p) < 4 or p[0] != 0x81 or p[1] != b1 or p[2] != b2 or p[4:].hex() != c.meta["seq"]:
+            eng.fail(c, "av1C does not carry the sequence header with matching profile/level/tier/bit-depth/chroma fields",
+                     dict(key="C07", av1=True, mono=bool(exp["mono"]), got=p[:4].hex(), expected="81%02x%02x" % (b1, b2)))
+    eng.notes.append("AV1 syntax branches taken: %r" % dict(eng.av1_tags))
+
+
+KNOWN_CLASSES["c07_av1_monochrome_csp"] = lambda eng, fl: bool((fl.get("detail") or {}).get("av1")) and bool((fl.get("detail") or {}).get("mono"))
+KNOWN_CLASSES["c07_frag_av1c_fields"] = lambda eng, fl: False
+PROPS["C07"]["fams"] = [("fam_mux_clean", 200, 4000), ("fam_mux_av", 100, 2000), ("fam_av1_syntax", 150, 4000)]
+PROPS["C07"]["extra"] = extra_C07
+PROPS["C04"]["fams"] = PROPS["C04"]["fams"] + [("fam_av1_syntax", 40, 1000)]
+PROPS["C12"]["fams"] = PROPS["C12"]["fams"] + [("fam_av1_syntax", 60, 2000)]
